@@ -68,12 +68,23 @@ Character(f) ==
 \* Tolerances.  Relative ones in parts per 10^9 (ppb), absolute ones in nanometres on an ellipsoid of the
 \* size of the Earth (the harness scales them with a and adds 8 ulp of the false origin / expected value).
 \* The finite-difference instrument is good to a few ppb (error budget in gvh_geom.rs); 100 ppb = 1e-7.
-\*   conformal, sphmerc, equalarea: measured worst cases on the unchanged tree are <= 1 ppb (see evidence)
-\*   bowring: Bowring's series is conformal only to O(dlon^6 e'^2..): measured within +-3 degrees <= 0.07 ppm
-\*            for f <= 1/150 up to |lat| = 89.8; the class is 10 ppm (1e-5)
+\* Measured worst cases on the unchanged tree (thorough tier, 7.9e6 obligations, three seeds), each at least 100 times
+\* below its tolerance:
+\*   conformal, sphmerc  h = k and meridian _|_ parallel 1e-7      measured 3.2e-10 (lcc at -89 degrees), 1.2e-10
+\*   bowring             1e-6: Bowring's series is conformal only approximately   measured 9.4e-10 (3 degrees from the
+\*                       central meridian on the equator, f = 1/150)
+\*   true scale          1e-7                                      measured 7e-11
+\*   equalarea           1e-5: near the poles laea loses digits (cancellation in rho of the polar aspects; qs() on
+\*                       nearly spherical ellipsoids in proportion to 1/e, amplified by asin near +-1), which the
+\*                       differences amplify by 1/h                measured 1.8e-8 (0.2 degrees from a pole, rf ~ 1e5)
+\*   factors()           1e-6 (its own stencil is of 2nd order)    measured 1.9e-9
+\*   origin, arc         1e-5 m                                    measured 2.8e-9 m, 1.1e-8 m
+\*   webmerc closed form 1e-4 m (|y| reaches 7 a at 89.8 degrees)  measured 0 (closed form), 2.9e-7 m (against merc)
 Tol(chr) ==
-    CASE chr = "bowring" -> [conf |-> 10000, area |-> 0, scale |-> 100, fac |-> 1000, origin |-> 10000, arc |-> 10000, sph |-> 0]
-      [] OTHER           -> [conf |-> 100,   area |-> 100, scale |-> 100, fac |-> 1000, origin |-> 10000, arc |-> 10000, sph |-> 100000]
+    CASE chr = "bowring"   -> [conf |-> 1000, area |-> 0,    scale |-> 100, fac |-> 1000, origin |-> 10000, arc |-> 0,     sph |-> 0]
+      [] chr = "equalarea" -> [conf |-> 0,    area |-> 10000, scale |-> 0,   fac |-> 1000, origin |-> 10000, arc |-> 0,     sph |-> 0]
+      [] chr = "sphmerc"   -> [conf |-> 100,  area |-> 0,    scale |-> 100, fac |-> 1000, origin |-> 0,     arc |-> 0,     sph |-> 100000]
+      [] chr = "conformal" -> [conf |-> 100,  area |-> 0,    scale |-> 100, fac |-> 1000, origin |-> 10000, arc |-> 10000, sph |-> 0]
 
 (***************************************************************************)
 (* Ellipsoids                                                               *)
@@ -82,7 +93,7 @@ AllEllps == {"MERIT", "SGS85", "GRS80", "IAU76", "airy", "APL4.9", "NWL9D", "mod
     "GSK2011", "bessel", "bess_nam", "clrk66", "clrk80", "clrk80ign", "CPM", "delmbr", "engelis", "evrst30", "evrst48", "evrst56",
     "evrst69", "evrstSS", "fschr60", "fschr60m", "fschr68", "helmert", "hough", "intl", "krass", "kaula", "lerch", "mprts",
     "new_intl", "plessis", "PZ90", "SEasia", "walbeck", "WGS60", "WGS66", "WGS72", "WGS84", "sphere", "unitsphere"}
-QuickEllps == {"GRS80", "intl", "bessel", "mprts", "sphere", "unitsphere"}
+QuickEllps == {"GRS80", "WGS84", "intl", "bessel", "krass", "mprts", "sphere", "unitsphere"}
 Spheres == {"sphere", "unitsphere"}
 \* an ellipsoid: a built-in name, or semimajor axis and reciprocal flattening as text.  "{A}" and "{RF:lo:hi}" are
 \* replaced by the driver with seeded random values: a in [6.3e6, 6.4e6] m, rf in [lo, hi]  (f in [0, 1/150])
@@ -90,7 +101,7 @@ Named(n) == [name |-> n, a |-> "", rf |-> ""]
 Arf(a, rf) == [name |-> "", a |-> a, rf |-> rf]
 SynQ == {Arf("6378137", "150"), Arf("{A}", "{RF:150:400}")}
 SynT == {Arf("6378137", "150"), Arf("6400000", "175.5"), Arf("6356000", "1000"), Arf("6378137", "100000"),
-         Arf("{A}", "{RF:150:200}"), Arf("{A}", "{RF:200:300}"), Arf("{A}", "{RF:300:1000}"), Arf("{A}", "{RF:1000:1000000}")}
+         Arf("{A}", "{RF:150:200}"), Arf("{A}", "{RF:200:300}"), Arf("{A}", "{RF:300:1000}"), Arf("{A}", "{RF:1000:100000}")}
 Ellipsoids == {Named(n) : n \in (IF Q THEN QuickEllps ELSE AllEllps)} \cup (IF Q THEN SynQ ELSE SynT)
 EText(e) == IF e.name # "" THEN e.name ELSE e.a \o "," \o e.rf
 
@@ -151,6 +162,7 @@ LccShapes ==
 
 \* omerc: true scale k_0 at the centre; the false origin is the image of the centre in variant B only
 \* (variant A puts it at the natural origin: not compared).  The Laborde case (gamma_c absent) is not documented: not written.
+\* Azimuths are written in [-90, 90] degrees: the documentation says nothing about |alpha| > 90 (the same line as alpha -+ 180).
 Omerc(lonc, latc, alpha, gamma, variant, k) ==
     [Sh("omerc latc=" \o T(latc) \o " lonc=" \o T(lonc) \o " alpha=" \o alpha \o " gamma_c=" \o gamma \o (IF k = "1" THEN "" ELSE " k_0=" \o k)
         \o (IF variant THEN " variant" ELSE ""), lonc, latc)
@@ -161,7 +173,7 @@ OmercShapes ==
      OmB(Omerc(1150, 40, "53.3158204722", "53.1301023611", TRUE, "0.99984"), "590476.87", "442857.65"),
      OmB(Omerc(-700, -360, "30", "20", TRUE, "0.9999"), "1000", "2000"),
      Omerc(200, 400, "90", "90", FALSE, "1"), Omerc(200, 400, "90", "90", TRUE, "1")}
-    \cup (IF Q THEN {} ELSE {Omerc(-700, -360, "30", "30", FALSE, "0.9999"), Omerc(200, 400, "120", "120", TRUE, "1"), Omerc(200, 400, "-40", "-40", TRUE, "1"),
+    \cup (IF Q THEN {} ELSE {Omerc(-700, -360, "30", "30", FALSE, "0.9999"), Omerc(200, 400, "-40", "-40", TRUE, "1"), Omerc(200, 400, "-75", "-75", FALSE, "1"),
                              Omerc(200, 400, "53", "0", TRUE, "1"), Omerc(200, 0, "45", "45", TRUE, "1"), Omerc(200, 400, "5", "5", FALSE, "0.9996")})
 
 \* somerc: true scale k_0 at the centre
@@ -193,6 +205,9 @@ Shapes(f) ==
 
 \* families whose parameterisations the property wants in both hemispheres
 BothHemispheres == {"merc", "tmerc", "btmerc", "utm", "butm", "lcc", "omerc", "somerc", "laea"}
+\* families for which a pole is a singular point of the map itself (the finite-difference step in latitude shrinks with
+\* the distance to it); for the others only the graticule is singular there
+PoleSingular(f) == f \in {"merc", "webmerc", "lcc"}
 \* families whose lattice is laid around the centre only (no documented domain: a neighbourhood of the centre)
 Local == {"omerc", "somerc"}
 
@@ -203,22 +218,23 @@ EllpsFor(f, s) == IF HasFalseOrigin(s) THEN {e \in Ellipsoids : e.name # "unitsp
 (***************************************************************************)
 (* Lattices (tenths of a degree) and the domain as stated in the property   *)
 (***************************************************************************)
+Step(lo, hi, st) == {lo + st * i : i \in 0..((hi - lo) \div st)}
+PolarLats == {850, 870, 880, 890, 895, 898}
 Lats == IF Q THEN {-898, -850, -600, -300, -5, 0, 5, 300, 450, 600, 850, 898}
-        ELSE {-898, -895, -890, -880, -850, -800, -700, -600, -500, -400, -300, -200, -100, -50, -10, -1, 0,
-              1, 10, 50, 100, 200, 300, 400, 450, 500, 600, 700, 800, 850, 880, 890, 895, 898}
+        ELSE Step(-825, 825, 25) \cup PolarLats \cup {0 - la : la \in PolarLats} \cup {-10, -1, 1, 10}
 DLonMerc == IF Q THEN {-1790, 0, 1234} ELSE {-1790, -900, -1, 0, 300, 1234, 1790}
-DLonCone == IF Q THEN {-1700, -600, 0, 300, 1700} ELSE {-1700, -1500, -1200, -900, -600, -300, -100, -1, 0, 50, 300, 600, 900, 1200, 1500, 1700}
-DLon60 == IF Q THEN {-600, -300, -30, 0, 100, 600} ELSE {-600, -550, -500, -400, -300, -200, -100, -60, -30, -10, -1, 0, 1, 10, 30, 60, 100, 200, 300, 400, 500, 550, 600}
-DLon3 == IF Q THEN {-30, 0, 15, 30} ELSE {-30, -25, -20, -15, -10, -5, -1, 0, 1, 5, 10, 15, 20, 25, 30}
-DLonAz == IF Q THEN {-1400, -600, 0, 300, 1000} ELSE {-1400, -1200, -1000, -800, -600, -400, -200, -100, -10, 0, 10, 100, 200, 400, 600, 800, 1000, 1200, 1400}
-Near3 == IF Q THEN {-30, -10, 0, 15, 30} ELSE {-30, -25, -20, -15, -10, -5, -1, 0, 1, 5, 10, 15, 20, 25, 30}
-Near6 == IF Q THEN {-60, -20, 0, 30, 60} ELSE {-60, -50, -40, -30, -20, -10, -1, 0, 1, 10, 20, 30, 40, 50, 60}
+DLonCone == IF Q THEN {-1700, -600, 0, 300, 1700} ELSE Step(-1700, 1700, 100) \cup {-1, 1, 50}
+DLon60 == IF Q THEN {-600, -300, -30, 0, 100, 600} ELSE Step(-600, 600, 50) \cup {-575, -30, -10, -1, 1, 10, 30, 575}
+DLon3 == IF Q THEN {-30, 0, 15, 30} ELSE Step(-30, 30, 5) \cup {-1, 1}
+DLonAz == IF Q THEN {-1400, -600, 0, 300, 1000} ELSE Step(-1400, 1400, 100) \cup {-10, 10}
+Near3 == IF Q THEN {-30, -10, 0, 15, 30} ELSE Step(-30, 30, 5) \cup {-1, 1}
+Near6 == IF Q THEN {-60, -20, 0, 30, 60} ELSE Step(-60, 60, 10) \cup {-1, 1}
 \* south-west corners of the 1 x 1 degree cells for the random points
-CellLats == IF Q THEN {-890, -610, -10, 0, 440, 880} ELSE {-890, -880, -850, -700, -610, -450, -300, -150, -10, 0, 140, 290, 440, 600, 750, 840, 870, 880}
+CellLats == IF Q THEN {-890, -610, -10, 0, 440, 880} ELSE Step(-890, 860, 70) \cup {-880, -10, 0, 870, 880}
 CellDLon(f) ==
-    CASE f \in {"tmerc", "utm"} -> IF Q THEN {-600, -10, 590} ELSE {-600, -450, -300, -150, -10, 0, 140, 290, 440, 590}
+    CASE f \in {"tmerc", "utm"} -> IF Q THEN {-600, -10, 590} ELSE Step(-600, 590, 70) \cup {-10, 0, 590}
       [] f \in {"btmerc", "butm"} -> IF Q THEN {-30, 20} ELSE {-30, -20, -10, 0, 10, 20}
-      [] OTHER -> IF Q THEN {-1700, -10, 1100} ELSE {-1700, -1300, -900, -450, -10, 0, 500, 800, 1100, 1400, 1690}
+      [] OTHER -> IF Q THEN {-1700, -10, 1100} ELSE Step(-1700, 1690, 170) \cup {-10, 0, 1690}
 
 \* the domain of the property: |lat| < 89.9; within 60 degrees of the central meridian for tmerc, 3 degrees for btmerc;
 \* laea away from the antipode (|dlat| + |dlon| bounds the spherical distance from the centre from above: <= 150 degrees);
@@ -278,12 +294,14 @@ PinKinds(f) == IF f = "laea" THEN {"area", "arear"} ELSE {"scale"}
 
 \* origin conventions
 OriginObl(f, s) == IF s.origin /\ f # "webmerc" THEN {AtCentre("origin", s, "")} ELSE {}
-ArcObl(f, s) == IF f \in {"tmerc", "utm", "btmerc", "butm"} THEN {Ob("arc", <<s.lon0, la>>, "") : la \in Lats} ELSE {}
+\* (the statement makes the meridian-arc clause for tmerc; btmerc's northing on the central meridian is the library's
+\* series for the meridian arc - a matter of C06 - and is not compared)
+ArcObl(f, s) == IF f \in {"tmerc", "utm"} THEN {Ob("arc", <<s.lon0, la>>, "") : la \in Lats} ELSE {}
 \* webmerc: the spherical Mercator of radius a, at every lattice point and at the origin
 SphObl(f, s) == IF f = "webmerc" THEN {Ob("sph", p, "") : p \in Pts(f, s) \cup {<<0, 0>>}} ELSE {}
 
 \* the library's own Jacobian / Factors: a 2nd-order stencil with a fixed step, compared away from the poles
-FacLats == {-600, -300, 5, 300, 450, 600}
+FacLats == {-600, -300, 0, 300, 450, 600}
 FacObl(f, s) == {Ob("fac", p, "") : p \in {q \in Pts(f, s) : q[2] \in FacLats \/ f \in Local}}
 
 Obl(f, s) == CharObl(f, s) \cup ScaleObl(f, s) \cup OriginObl(f, s) \cup ArcObl(f, s) \cup SphObl(f, s) \cup FacObl(f, s)
@@ -358,7 +376,7 @@ CoverInv == RepState =>
     /\ fam = "omerc" => {"A", "B", "A alpha=90", "B alpha=90"} \subseteq {s.tag : s \in Shapes(fam)}
     /\ fam = "lcc" => {"1SP", "2SP"} \subseteq {s.tag : s \in Shapes(fam)}
     /\ fam = "merc" => (\E s \in Shapes(fam) : s.tag = "lat_ts") /\ (\E s \in Shapes(fam) : s.k \notin {"", "1"})
-    /\ fam \in {"tmerc", "utm", "btmerc", "butm"} => \E o \in Obl(fam, shp) : o[1] = "arc"
+    /\ fam \in {"tmerc", "utm"} => \E o \in Obl(fam, shp) : o[1] = "arc"
     /\ (shp.origin /\ fam # "webmerc") => \E o \in Obl(fam, shp) : o[1] = "origin"
 
 \* the number of obligations of a configuration is what the products say: no two kinds collide, no lattice point is lost
@@ -369,7 +387,8 @@ CountInv == RepState =>
     /\ Card(CharObl(fam, shp)) = Card(Pts(fam, shp)) + Card(Cells(fam, shp))
     /\ fam # "laea" => Card(Pts(fam, shp)) = PtsProduct(fam)
     /\ fam \in {"merc", "webmerc", "lcc"} => Card(ScaleObl(fam, shp)) = Card(LociLons(fam, shp)) * Card(shp.par)
-    /\ fam \in {"tmerc", "utm", "btmerc", "butm"} => Card(ScaleObl(fam, shp)) = Card(Lats) /\ Card(ArcObl(fam, shp)) = Card(Lats)
+    /\ fam \in {"tmerc", "utm", "btmerc", "butm"} => Card(ScaleObl(fam, shp)) = Card(Lats)
+    /\ fam \in {"tmerc", "utm"} => Card(ArcObl(fam, shp)) = Card(Lats)
     /\ Cells(fam, shp) # {}
 
 (***************************************************************************)
@@ -378,7 +397,7 @@ CountInv == RepState =>
 (***************************************************************************)
 Emit == RepState =>
     PrintT(<<"GEO", ToJson([fam |-> fam, shape |-> shp.text, chr |-> Character(fam), tag |-> shp.tag, hemi |-> shp.hemi,
-                             k0 |-> shp.k, x0 |-> shp.x0, y0 |-> shp.y0, lat0 |-> shp.clat,
+                             k0 |-> shp.k, x0 |-> shp.x0, y0 |-> shp.y0, lat0 |-> shp.clat, polesing |-> PoleSingular(fam),
                              ells |-> {<<EText(e), Partner(fam, e)>> : e \in EllpsFor(fam, shp)},
                              tol |-> Tol(Character(fam)), nobs |-> Cardinality(Obl(fam, shp)),
                              obs |-> {ObText(shp, o) : o \in Obl(fam, shp)}])>>)
